@@ -147,7 +147,11 @@ type verifSigCase struct {
 	SigRaw     *string  `json:"sigraw"` // use this signature text instead of signing
 	B64Cands   []string `json:"b64cands"`
 	SecretCand []string `json:"secretcands"`
+	Framing    string   `json:"framing"` // "" | declared | unknown | chunked | server
 }
+
+// verifOpaqueReader hides the concrete reader type so that net/http cannot infer a Content-Length.
+type verifOpaqueReader struct{ io.Reader }
 
 var (
 	verifRsaOnce sync.Once
@@ -235,18 +239,34 @@ func verifSig(raw json.RawMessage) any {
 	}
 	header := strings.ReplaceAll(strings.ReplaceAll(c.Header, "{SECRET}", secret), "{SIG}", sig)
 
-	build := func() *http.Request {
-		var rd io.Reader
-		if sentBody != "" {
-			rd = strings.NewReader(sentBody)
+	// framing of the body: "" / "declared" = Content-Length set from the body; "unknown" = handler called
+	// directly with a reader of unknown size (ContentLength -1); "chunked" = through a real server, the
+	// client sends Transfer-Encoding: chunked; "server" = through a real server with a declared length
+	viaServer := c.Framing == "chunked" || c.Framing == "server"
+	unknownLen := c.Framing == "unknown" || c.Framing == "chunked"
+	body := func() io.Reader {
+		if sentBody == "" && !unknownLen {
+			return nil
 		}
-		r := httptest.NewRequest(c.Method, c.Target, rd)
+		if unknownLen {
+			return verifOpaqueReader{strings.NewReader(sentBody)}
+		}
+		return strings.NewReader(sentBody)
+	}
+	setHeaders := func(r *http.Request) {
 		if !c.NoHeader {
 			r.Header.Set(httpx.ContentSecurity, header)
 		}
 		if c.XUri != "" {
 			r.Header.Set("X-Request-Uri", c.XUri)
 		}
+	}
+	build := func() *http.Request {
+		r := httptest.NewRequest(c.Method, c.Target, body())
+		if unknownLen {
+			r.ContentLength = -1
+		}
+		setHeaders(r)
 		return r
 	}
 
@@ -263,13 +283,57 @@ func verifSig(raw json.RawMessage) any {
 			seenBody = string(b)
 			w.WriteHeader(http.StatusOK)
 		}))
-	r := build()
-	rec := httptest.NewRecorder()
-	mw.ServeHTTP(rec, r)
+	// outermost: what the server side sees of the request, and whether the gate panicked
+	var seen struct {
+		method, path, query string
+		clen                int64
+		chunked             bool
+	}
+	panicked, panicVal := false, ""
+	outer := http.HandlerFunc(func(w http.ResponseWriter, r *http.Request) {
+		seen.method, seen.path, seen.query, seen.clen = r.Method, r.URL.Path, r.URL.RawQuery, r.ContentLength
+		seen.chunked = len(r.TransferEncoding) > 0 && r.TransferEncoding[0] == "chunked"
+		panicked, panicVal = verifdrv.Catch(func() { mw.ServeHTTP(w, r) })
+	})
+	status, sigHdr := 0, ""
+	if viaServer {
+		srv := httptest.NewServer(outer)
+		u, err := url.Parse(c.Target)
+		if err != nil {
+			srv.Close()
+			return map[string]any{"error": "target: " + err.Error()}
+		}
+		target := srv.URL + u.EscapedPath()
+		if u.RawQuery != "" {
+			target += "?" + u.RawQuery
+		}
+		req, err := http.NewRequest(c.Method, target, body())
+		if err != nil {
+			srv.Close()
+			return map[string]any{"error": "request: " + err.Error()}
+		}
+		setHeaders(req)
+		resp, err := srv.Client().Do(req)
+		if err != nil {
+			srv.Close()
+			return map[string]any{"error": "client: " + err.Error()}
+		}
+		io.Copy(io.Discard, resp.Body)
+		resp.Body.Close()
+		status, sigHdr = resp.StatusCode, resp.Header.Get("Signature")
+		srv.Close()
+	} else {
+		rec := httptest.NewRecorder()
+		outer.ServeHTTP(rec, build())
+		status, sigHdr = rec.Code, rec.Header().Get("Signature")
+	}
 	now1 := time.Now().Unix()
+	if panicked {
+		status = 0
+	}
 
 	// ---- tabulation of the idealised components, with the same libraries
-	r2 := build()
+	r2 := &http.Request{Method: seen.method, URL: &url.URL{Path: seen.path, RawQuery: seen.query}, ContentLength: seen.clen}
 	xok, xpath, xquery := false, "", ""
 	if c.XUri != "" {
 		if u, err := url.Parse(c.XUri); err == nil {
@@ -326,20 +390,23 @@ func verifSig(raw json.RawMessage) any {
 		Hex  string `json:"hex"`
 	}
 	shaTab := []shaRow{{sentBody, verifSha(sentBody)}, {c.SignBody, verifSha(c.SignBody)}}
-	// would the crypto handler be able to decrypt the body?
-	decBodyOk := false
-	if k, err := base64.StdEncoding.DecodeString(c.KeyB64); err == nil && r2.ContentLength > 0 {
-		r3 := build()
-		if panicked, _ := verifdrv.Catch(func() { decBodyOk = decryptBody(k, r3) == nil }); panicked {
-			decBodyOk = false
+	// what does cryptohandler.decryptBody do with this body under the announced key: ok / err / panic
+	decBody := "err"
+	if k, err := base64.StdEncoding.DecodeString(c.KeyB64); err == nil && seen.clen > 0 {
+		r3 := httptest.NewRequest(c.Method, c.Target, strings.NewReader(sentBody))
+		ok := false
+		if p, _ := verifdrv.Catch(func() { ok = decryptBody(k, r3) == nil }); p {
+			decBody = "panic"
+		} else if ok {
+			decBody = "ok"
 		}
 	}
 	return map[string]any{
 		"now0": now0, "now1": now1, "ts": ts, "header": header, "secret": secret, "sig": sig, "plain": plain,
 		"method": r2.Method, "path": r2.URL.Path, "query": r2.URL.RawQuery, "clen": r2.ContentLength,
 		"xok": xok, "xpath": xpath, "xquery": xquery, "sentbody": sentBody,
-		"rsa": rsaTab, "b64": b64Tab, "mac": macTab, "sha": shaTab, "decbody": decBodyOk,
-		"status": rec.Code, "ran": ran, "sighdr": rec.Header().Get("Signature"),
+		"rsa": rsaTab, "b64": b64Tab, "mac": macTab, "sha": shaTab, "decbody": decBody, "panic": panicked, "panicval": panicVal, "chunked": seen.chunked,
+		"status": status, "ran": ran, "sighdr": sigHdr,
 		"seenbody": seenBody, "sentcontent": sentContent, "signcontent": signContent,
 	}
 }
